@@ -78,3 +78,11 @@ pub assume_specification<'a, K, V, A, Q>[ std::collections::BTreeMap::<K, V, A>:
             None => !vstd::std_specs::btree::contains_borrowed_key(m@, k),
         };
 } // verus!
+verus! {
+/// `for (k, v) in &index_map`: the entries in insertion order
+pub assume_specification<'a, K, V>[ <&'a IndexMap<K, V> as IntoIterator>::into_iter ](m: &'a IndexMap<K, V>) -> (r: IndexMapIter<'a, K, V>)
+    ensures
+        r.obeys_prophetic_iter_laws(),
+        r.remaining().len() == im_vals(*m).len(),
+        forall|i: int| 0 <= i < im_vals(*m).len() ==> *(#[trigger] r.remaining()[i]).0 == im_keys(*m)[i] && *r.remaining()[i].1 == im_vals(*m)[i];
+} // verus!
